@@ -68,12 +68,13 @@ def checkArgs (N : Nat) (dims : List Nat) (targets : List Int) (opL opR : List N
   | none => .error (.val .index)
   | some td => if td ≠ opL then .error (.val .dims) else .ok ()
 
-/-- the body after the checks: `new_order[t] = i` (wrap-around of negative `t`), `rest_pos`,
-`rest_qubits[i]` (IndexError), `identity(dims[i])` (IndexError), `permute` (length of the order). -/
+/-- the body after the checks: `new_order[t] = i` (wrap-around of negative `t`, IndexError below `-N`),
+`rest_pos`, `rest_qubits[i]` (IndexError), `identity(dims[i])` (IndexError), `permute` (length of the order). -/
 def buildChecks (N : Nat) (dims : List Nat) (targets : List Int) : Except AErr (List Nat) :=
   let nn := nonneg targets
   let rest := restPos N nn
-  if rest.length > N - targets.length then .error (.val .index)
+  if targets.any (fun t => t < -(N : Int)) then .error (.val .index)
+  else if rest.length > N - targets.length then .error (.val .index)
   else if rest.any (fun i => dims.length ≤ i) then .error (.val .index)
   else if rest.length + targets.length ≠ N then .error (.val .permute)
   else .ok nn
